@@ -160,7 +160,7 @@ def stepClient (g : G) (c : Client) (f : Fault) : G :=
     let rev := g.dealt + 1
     let g := { g with dealt := rev }
     if exp == 0 then g.setClient { c with pc := .createCommit rev }
-    else if rev < exp then
+    else if rev ≤ exp then
       (g.notify (mkW rev exp false .put key val)).finish c (.error .drift) rev
     else g.setClient { c with pc := .updateCommit rev }
   | .createCommit rev, k =>
@@ -235,7 +235,7 @@ def stepClient (g : G) (c : Client) (f : Fault) : G :=
     let rev := g.dealt + 1
     let g := { g with dealt := rev }
     let inval := mkW rev modRev false .delete key oldVal
-    if exp > 0 && rev < exp then (g.notify inval).finish c (.error .drift) rev
+    if exp > 0 && rev ≤ exp then (g.notify inval).finish c (.error .drift) rev
     else if exp > 0 && exp != modRev then
       (g.notify inval).setClient { c with pc := .readLatest rev (some (key, oldVal, modRev)) }
     else if rev ≤ modRev then (g.notify inval).finish c (.error .other) rev
